@@ -168,10 +168,26 @@ func (sh *shadow) after(r *hx.Run, w *world, op []string, pre, post *snapshot, c
 			sh.fresh["cand|"+pkBytesKey(op[2])] = false
 			sh.gen["cand|"+pkBytesKey(op[2])]++
 		case "screg", "scupd":
+			// C35: who may request what (evaluated on the committed registry before the transaction)
+			if cid, ok := u64(op[3]); ok {
+				owner, registered := pre.scOwner[cid]
+				if name == "screg" && registered {
+					r.Viol("C35:registration-request-accepted-for-registered-chain", fmt.Sprintf("registerSideChain for chain id %d succeeded although the id is registered (owner %s)", cid, ahex(owner)))
+				}
+				if name == "scupd" && (!registered || ahex(owner) != op[2]) {
+					r.Viol("C35:update-request-accepted-from-non-owner", fmt.Sprintf("updateSideChain for chain id %d by %s succeeded; registered: %v, owner %s", cid, op[2], registered, ahex(owner)))
+				}
+			}
 			k := name + "|" + op[3]
 			sh.gen[k]++
 			sh.fresh[k] = true
 		case "scquit":
+			if cid, ok := u64(op[2]); ok {
+				owner, registered := pre.scOwner[cid]
+				if !registered || ahex(owner) != op[3] {
+					r.Viol("C35:quit-request-accepted-from-non-owner", fmt.Sprintf("quitSideChain for chain id %d by %s succeeded; registered: %v, owner %s", cid, op[3], registered, ahex(owner)))
+				}
+			}
 			k := name + "|" + op[2]
 			a, _ := parseAddr(op[3])
 			sh.gen[k]++
@@ -231,6 +247,12 @@ func (sh *shadow) after(r *hx.Run, w *world, op []string, pre, post *snapshot, c
 		}
 		cntAny, cntUpper, cntLower := count(add(sh.anyA, rk)), count(add(sh.byIdent, ident)), count(add(sh.byExact, exact))
 		firedNow := cr.fired(spec.event)
+		// the action counts as applied when its notification was emitted or when the record it acts on changed
+		// (a handler may apply the action and return before the notification)
+		if !firedNow && spec.reqKind != "" && targetChanged(pre, post, spec.reqKind, op) {
+			r.Hist("approve." + name + ".applied-without-notification")
+			firedNow = true
+		}
 		r.Hist(fmt.Sprintf("approve.%s.fired=%v", name, firedNow))
 		switch {
 		case firedNow && cntAny < thr:
@@ -266,6 +288,7 @@ func (sh *shadow) after(r *hx.Run, w *world, op []string, pre, post *snapshot, c
 				}
 			}
 			sh.registry(r, name, op, pre, post)
+			sh.relayers(r, name, op, pre, post)
 		}
 	}
 	// ------------------------------------------------------------------ pool invariants (C34)
@@ -301,6 +324,22 @@ func requestIdent(pre *snapshot, kind string, op []string) string {
 	return ""
 }
 
+// targetChanged: the record an approval of this kind acts on differs before and after the transaction.
+func targetChanged(pre, post *snapshot, kind string, op []string) bool {
+	pad := func(s string) string { return fmt.Sprintf("%020d", idNum(s)) }
+	switch kind {
+	case "cand":
+		return fmt.Sprint(pre.curPool()) != fmt.Sprint(post.curPool())
+	case "screg", "scupd", "scquit":
+		return pre.sc[pad(op[2])] != post.sc[pad(op[2])]
+	case "rlreg", "rlrm":
+		return strings.Join(pre.rl, ",") != strings.Join(post.rl, ",")
+	case "svreg", "svrm":
+		return pre.sv != post.sv
+	}
+	return false
+}
+
 func stillPending(post *snapshot, kind string, op []string) bool {
 	pad := func(s string) string { return fmt.Sprintf("%020d", idNum(s)) }
 	switch kind {
@@ -333,6 +372,34 @@ func stillPending(post *snapshot, kind string, op []string) bool {
 		return ok
 	}
 	return false
+}
+
+// relayers: C36 at the moment a relayer approval took effect: the listed addresses are (not) relayers afterwards.
+func (sh *shadow) relayers(r *hx.Run, name string, op []string, pre, post *snapshot) {
+	if name != "rlappr" && name != "rlapprrm" {
+		return
+	}
+	pad := fmt.Sprintf("%020d", idNum(op[2]))
+	req := pre.rlapply[pad]
+	if name == "rlapprrm" {
+		req = pre.rlrm[pad]
+	}
+	list := strings.SplitN(req, "/", 2)[0]
+	if list == "" || list == "-" {
+		return
+	}
+	now := map[string]bool{}
+	for _, a := range post.rl {
+		now[a] = true
+	}
+	for _, a := range strings.Split(list, ",") {
+		if name == "rlappr" && !now[a] {
+			r.Viol("C36:approved-relayer-not-registered", fmt.Sprintf("registration request %s (%s) was applied but %s is not stored as relayer", op[2], list, a))
+		}
+		if name == "rlapprrm" && now[a] {
+			r.Viol("C36:removed-relayer-still-registered", fmt.Sprintf("removal request %s (%s) was applied but %s is still stored as relayer", op[2], list, a))
+		}
+	}
 }
 
 // registry: C35 on the side-chain registry at the moment an approval took effect.
